@@ -41,6 +41,16 @@ fn divan_threads() -> usize {
     n
 }
 
+fn wait_for_exit() -> usize {
+    let t0 = Instant::now();
+    let mut left = divan_threads();
+    while left > 0 && t0.elapsed() < Duration::from_secs(10) {
+        std::thread::sleep(Duration::from_millis(20));
+        left = divan_threads();
+    }
+    left
+}
+
 fn child(runs: &str) {
     let mut k = 0;
     for r in runs.split(',').filter(|r| !r.is_empty()) {
@@ -51,14 +61,12 @@ fn child(runs: &str) {
             _ => panic!("bad run {r}"),
         }
         k += 1;
+        // The workers exit asynchronously once their channel is closed: poll, bounded,
+        // after every run, so that the census taken inside the next run's calls
+        // (`seen`) does not depend on how fast the previous run's workers wind down.
+        wait_for_exit();
     }
-    // The workers exit asynchronously once their channel is closed: poll, bounded.
-    let t0 = Instant::now();
-    let mut left = divan_threads();
-    while left > 0 && t0.elapsed() < Duration::from_secs(10) {
-        std::thread::sleep(Duration::from_millis(20));
-        left = divan_threads();
-    }
+    let left = wait_for_exit();
     let seen = SEEN.load(std::sync::atomic::Ordering::Relaxed);
     println!("\nsurvivors={left} runs={k} seen={seen}");
 }
